@@ -317,6 +317,7 @@ def main_check(check, argv=None):
     ap.add_argument("--workers", type=int, default=None)
     ap.add_argument("--verbose", action="store_true")
     ap.add_argument("--run-index", type=int, default=None, help="run one scenario index only and write its replay file")
+    ap.add_argument("--digests", type=int, default=None, help="print 'index digest violations' for the first N scenarios (determinism self-test)")
     ap.add_argument("--triage", action="store_true", help="list violation signatures with counts; no minimisation, no evidence")
     args = ap.parse_args(argv)
     prop = check.prop
@@ -343,6 +344,16 @@ def main_check(check, argv=None):
         scn["seed"] = rs
         scn["index"] = i
         scns.append(scn)
+
+    if args.digests is not None:
+        sub = scns[:args.digests]
+        res = run_parallel(_run_one, [(check, s_, None) for s_ in sub], workers, wall=check.run_wall)
+        for i, r in enumerate(res):
+            if r and r.get("ok"):
+                print("DIGEST %s %d %s %s" % (prop, i, r["res"].get("digest"), ",".join(_sigs(r["res"])) or "-"))
+            else:
+                print("DIGEST %s %d ERROR %s" % (prop, i, (r or {}).get("err")))
+        return 0
 
     if args.run_index is not None:
         scn = scns[args.run_index]
